@@ -662,6 +662,25 @@ func (c *Ctx) cond(v ssa.Value) Lit {
 		return l
 	}
 	switch x := v.(type) {
+	case *ssa.Call:
+		// a predicate helper that is looked through and consists of one return: its literal is the literal of
+		// the returned expression, rendered in the frame of this call
+		if cal := x.Common().StaticCallee(); cal != nil && c.isNew(cal) && cal.Signature.Results().Len() == 1 {
+			if rets := returnsOf(cal); len(rets) == 1 && len(cal.Blocks) == 1 {
+				rec := false
+				for _, f := range c.frames {
+					if f.Common().StaticCallee() == cal {
+						rec = true
+					}
+				}
+				if !rec {
+					c.frames = append(c.frames, x)
+					l := c.cond(rets[0].Results[0])
+					c.frames = c.frames[:len(c.frames)-1]
+					return l
+				}
+			}
+		}
 	case *ssa.UnOp:
 		if x.Op == token.NOT {
 			return c.cond(x.X).Neg()
